@@ -221,7 +221,7 @@ def _worker(args):
 def check(tier):
     ck = core.Check("C11", tier)
     shards, nv, nm = (16, 400, 2000) if tier == "quick" else (64, 1600, 16000)
-    res = core.pmap(_worker, [(ck.seed, i, nv, nm, "asan") for i in range(shards)])
+    res = core.pmap(_worker, [(ck.seed, i, nv, nm, "asan" if i % 4 != 3 else "asan-small") for i in range(shards)])
     counters = sem.merge(ck, res)
     ck.cov["rule"] = ("valid texts: accepted/mutated/raw printable grammars printed with random whitespace, newlines, "
                       "comments, optional semicolons, TERM sections split and placed anywhere, explicit or implicit "
